@@ -186,10 +186,13 @@ pub fn dump_manifest(entry: &Path, out: &mut Dump) {
     let cp = match jbk::tools::open_pack(entry) {
         Ok(c) => c,
         Err(e) => {
+            // neither the manifest nor the file's own listing can be read
             out.push("manifest", Leaf::Err(err_class(&e)));
+            out.push("file", Leaf::Err(err_class(&e)));
             return;
         }
     };
+    file_listing(&cp, out);
     let reader = match cp.get_manifest_pack_reader() {
         Ok(Some(r)) => r,
         Ok(None) => {
@@ -219,7 +222,10 @@ pub fn dump_manifest(entry: &Path, out: &mut Dump) {
     }
     out.push("manifest/check", check_leaf(m.check()));
     manifest_extras("manifest", &m, out);
-    // the container pack itself: what it says about the packs it stores
+}
+
+/// The container pack itself: what it says about the packs it stores.
+fn file_listing(cp: &jbk::reader::ContainerPack, out: &mut Dump) {
     out.push("file/pack_count", Leaf::Val(cp.pack_count().into_u64().to_string()));
     for idx in 0..cp.pack_count().into_u64().min(64) as u16 {
         let u = cp.get_pack_uuid(jbk::PackId::from(idx));
